@@ -60,6 +60,35 @@
 //     build tag) and is skipped;
 //   - block scoping: where the continuation of an `if` is inlined behind a branch, what the branch declared goes out of scope at its end
 //     (`var err error` in the branch, `hd, err := …` later); re-declaring a variable that is still in scope stays outside the subset.
+//
+// Protocol-level STREAMING decoders (protocolV1/protocolV2.Unpack over the ring). The function has a ring parameter, so its error is a
+// component of the result tuple (errVal mode). Further TRUSTED MAPPINGS, each in exactly the shape named:
+//   - the header slot of the connection context is ONE threaded variable `pend : Option <Header struct>` — a parameter next to `codec` and the
+//     FIRST component of the result — after checking in go/context.go that BeginUnpack / InUnpack / EndUnpack / SetHeader / GetHeader are
+//     `c.beginUnpack = true` / `return c.beginUnpack` / `c.beginUnpack = false; c.buildin[ContextKeyHeader] = nil` /
+//     `c.buildin[ContextKeyHeader] = h` / `return c.buildin[ContextKeyHeader]` and that nothing else in the package mentions the key or the
+//     flag (ctxHeaderSlot). The flag `beginUnpack` is not part of the state: `ctx.BeginUnpack()` is skipped, `ctx.EndUnpack()` is `pend := none`;
+//   - `header := headerFromContext(ctx)` — after checking that the package's headerFromContext is `v := ctx.GetHeader(); if v == nil
+//     { h = defaultHeaderPool.Get(); ctx.SetHeader(h) } else { h = v.(*Header) }; return` (the type assertion cannot fail on what these
+//     functions park) — ↦ `header := pend.getD {}; pend := some header` (pool Get = zero header as before). From here on `header` is a
+//     value variable that ALIASES the parked header: at every return `pend := pend.map (fun _ => header)` writes back what was written
+//     through the alias (a translated callee that gets `ctx` and the header never reads the slot: it ignores ctx or reads ctx.Codec only);
+//     all returns of such a function must be bare, a Go identifier `pend` drops the function;
+//   - `defer func() { if done || err != nil { ctx.SetHeader(nil); POOL.Put(header) } }()` (done / err the named bool / error results,
+//     header that alias, POOL the header pool) ↦ at every return, after the write-back, `pend := if done || err.isSome then none else pend`
+//     on the final values of the named results (the Put has no effect on the results, as before). A run-time panic is `Res.panic`: the state
+//     at a panic is dropped, so the deferred function (which Go does run while panicking) has nothing to act on there;
+//   - `ok, e := header.M(ctx, buf)` for a translated streaming method M (written pointer receiver, one ring, one value and an error in its
+//     tuple) ↦ `Res.bind (M header buf) fun (header, buf, ok, e)`; e is an `Option String` variable, `e != nil` / `e == nil` are
+//     isSome / isNone, `err = e` assigns it;
+//   - `if _, err = buf.Read(b); err != nil { return }` (err the named error result, b a local []byte) ↦ a match on the ring model's
+//     `Ring.read buf (len b)` (written after the library: ErrIsEmpty on an empty ring, which then keeps ring and b as they were; `% size`
+//     panics on size 0): on success the bytes read are copied to the front of b with `Bytes.copyAt b 0` (what is left of b stays) and
+//     err is nil; buf.PeekUint64() ↦ `Ring.peekUint64`;
+//   - `if x, _, err = gzip.Decompress(b); err != nil { return }` and `if err = p.UnmarshalMetadata(d); err != nil { return }` in this mode
+//     ↦ a match on `Gzip.decompress gz b` / `Metadata.unmarshalValues lower d` (the same oracles as above); on the error arm the left-hand
+//     side is NOT assigned (Go assigns the callee's result, a value the oracle does not have): the packet returned next to an error is
+//     not to be relied on, the equality theorems do not compare it.
 package main
 
 import (
@@ -342,6 +371,11 @@ type ftr struct {
 	retPool bool                        // some return hands out a pooled header
 	model   bool                        // the body calls a function of the hand-written model other than the oracles
 	scopes  map[*ast.EmptyStmt][]string // end-of-block markers: the variables that were in scope when the block was entered
+	pendTy  string                      // Lean struct of the header parked in the context (`header := headerFromContext(ctx)` was seen): the state variable `pend : Option T`
+	parked  string                      // the Go variable that aliases the parked header
+	relD    string                      // the named bool result the deferred release reads
+	relE    string                      // … and the named error result
+	release bool                        // the deferred conditional release `if done || err != nil { ctx.SetHeader(nil); pool.Put(header) }` was seen
 }
 
 func isCtxType(e ast.Expr) bool {
@@ -628,7 +662,7 @@ func (f *ftr) hoist(e ast.Expr) string {
 				case m == "Length" && len(args) == 0:
 					f.ren[key] = [2]string{"(Ring.length " + lname(ring) + ")", "Nat"}
 					f.hoisted = append(f.hoisted, key)
-				case (m == "PeekUint8" || m == "PeekUint16" || m == "PeekUint32") && len(args) == 0:
+				case (m == "PeekUint8" || m == "PeekUint16" || m == "PeekUint32" || m == "PeekUint64") && len(args) == 0:
 					n := strings.TrimPrefix(m, "PeekUint")
 					t := f.tmp()
 					pre += fmt.Sprintf("Res.bind (Ring.peekUint%s %s) fun %s =>\n", n, lname(ring), t)
@@ -735,6 +769,12 @@ func (f *ftr) methodCall(x *ast.CallExpr) (pre, app string, ok bool) {
 				f.needs["codec"] = true
 				app += " codec"
 			}
+		case p.kind == "ring": // the caller's ring is handed on (the callee returns the new ring in its tuple)
+			if !isId || f.vars[aid.Name] != "Ring" || !p.kept {
+				f.bad("ring argument %s of %s", exprText(a), exprText(x.Fun))
+				return
+			}
+			app += " " + lname(aid.Name)
 		case p.kind != "val":
 			f.bad("argument %s of %s", exprText(a), exprText(x.Fun))
 			return
@@ -1224,6 +1264,9 @@ func (f *ftr) ifInit(x *ast.IfStmt, rest []ast.Stmt, tail func() string) string 
 	if !ok || !isNeqNil(x.Cond, eid.Name) {
 		return f.bad("if with init: not `…, err = call; err != nil`")
 	}
+	if f.errVal {
+		return f.ifInitErrVal(x, as, eid.Name, rest, tail)
+	}
 	// the body hands the error on: a bare return with err the named error result, or `return nil, …, err` with err a local error
 	// variable in a function with unnamed results (the error last)
 	if len(rs.Results) == 0 {
@@ -1401,6 +1444,20 @@ func (f *ftr) defineSpecial(name string, rhs ast.Expr) (string, bool) {
 		f.declare(name, "Bytes")
 		return pre + fmt.Sprintf("let %s : Bytes := Metadata.marshalMap %s.metadata.values (Int.ofNat %s)\n", lname(name), lname(id.Name), n), true
 	}
+	// header := headerFromContext(ctx): the header parked in the context, or a fresh pool header that is parked at once
+	if fid, isId := ce.Fun.(*ast.Ident); isId && fid.Name == "headerFromContext" {
+		if _, shadow := f.vars[fid.Name]; shadow {
+			return "", false
+		}
+		hty, modelled := leanStruct[f.pkg+".Header"]
+		if len(ce.Args) != 1 || f.ctx == "" || exprText(ce.Args[0]) != f.ctx || !f.errVal || !f.named || f.pendTy != "" || f.joinDep > 0 || !modelled ||
+			!f.isHeaderPool("defaultHeaderPool") || !ctxHeaderSlot() || !headerFromContextShape(f.pk) {
+			return f.bad("headerFromContext not as `h := headerFromContext(ctx)` at the top of a streaming decoder"), true
+		}
+		f.pendTy, f.parked = hty, name
+		f.declare(name, hty)
+		return fmt.Sprintf("let %s : %s := Option.getD pend {}\nlet pend : Option %s := some %s\n", lname(name), hty, hty, lname(name)), true
+	}
 	// h := headerFromMetadata(packet.Metadata): a translated package-level function that hands out a pooled header
 	if fid, isId := ce.Fun.(*ast.Ident); isId {
 		tr, found := fnTable[f.pkg+"."+fid.Name]
@@ -1442,6 +1499,212 @@ func (f *ftr) defineSpecial(name string, rhs ast.Expr) (string, bool) {
 	return "", false
 }
 
+// go/context.go: the header slot of the context is one map entry that only these methods touch, and the unpack flag is read by InUnpack only
+func ctxHeaderSlot() bool {
+	pk, ok := pkgs["protocol"]
+	if !ok {
+		return false
+	}
+	want := map[string][]string{
+		"BeginUnpack": {"c.beginUnpack = true"},
+		"InUnpack":    {"return c.beginUnpack"},
+		"EndUnpack":   {"c.beginUnpack = false", "c.buildin[ContextKeyHeader] = nil"},
+		"SetHeader":   {"c.buildin[ContextKeyHeader] = h"},
+		"GetHeader":   {"return c.buildin[ContextKeyHeader]"},
+	}
+	for name, body := range want {
+		fd := findFunc(pk, "Context", name)
+		if fd == nil || len(fd.Recv.List) != 1 || len(fd.Recv.List[0].Names) != 1 || fd.Recv.List[0].Names[0].Name != "c" {
+			return false
+		}
+		if name == "SetHeader" && (len(fd.Type.Params.List) != 1 || len(fd.Type.Params.List[0].Names) != 1 || fd.Type.Params.List[0].Names[0].Name != "h") {
+			return false
+		}
+		got := stmtTexts(fd)
+		if len(got) != len(body) {
+			return false
+		}
+		for i := range got {
+			if got[i] != body[i] {
+				return false
+			}
+		}
+	}
+	// no other function of the package mentions the slot or the flag
+	n := 0
+	for _, fl := range pk.files {
+		ast.Inspect(fl, func(m ast.Node) bool {
+			switch y := m.(type) {
+			case *ast.Ident:
+				if y.Name == "ContextKeyHeader" {
+					n++
+				}
+			case *ast.SelectorExpr:
+				if y.Sel.Name == "beginUnpack" {
+					n += 100
+				}
+			}
+			return true
+		})
+	}
+	return n == 4+300 // the constant's declaration and three uses; three uses of the flag (its field declaration is an Ident, not a selector)
+}
+
+// headerFromContext of a version package: the parked header if there is one, else a pool header that is parked at once
+func headerFromContextShape(pk *pkgInfo) bool {
+	fd := findFunc(pk, "", "headerFromContext")
+	if fd == nil || len(fd.Type.Params.List) != 1 || len(fd.Type.Params.List[0].Names) != 1 || fd.Type.Params.List[0].Names[0].Name != "ctx" ||
+		!isCtxType(fd.Type.Params.List[0].Type) || fd.Type.Results == nil || len(fd.Type.Results.List) != 1 ||
+		len(fd.Type.Results.List[0].Names) != 1 || fd.Type.Results.List[0].Names[0].Name != "h" || exprText(fd.Type.Results.List[0].Type) != "*Header" {
+		return false
+	}
+	got := stmtTexts(fd)
+	return len(got) == 3 && got[0] == "v := ctx.GetHeader()" &&
+		got[1] == "if v == nil { h = defaultHeaderPool.Get() ctx.SetHeader(h) } else { h = v.(*Header) }" && got[2] == "return"
+}
+
+// `defer func() { if done || err != nil { ctx.SetHeader(nil); P.Put(header) } }()`: done / err the named bool / error results, header the
+// alias of the parked header, P the header pool
+func (f *ftr) isReleaseDefer(d *ast.DeferStmt) bool {
+	fl, ok := d.Call.Fun.(*ast.FuncLit)
+	if !ok || f.pendTy == "" || f.release || f.joinDep > 0 || len(d.Call.Args) != 0 || len(fl.Type.Params.List) != 0 || fl.Type.Results != nil || len(fl.Body.List) != 1 {
+		return false
+	}
+	is, ok := fl.Body.List[0].(*ast.IfStmt)
+	if !ok || is.Init != nil || is.Else != nil || len(is.Body.List) != 2 {
+		return false
+	}
+	be, ok := is.Cond.(*ast.BinaryExpr)
+	if !ok || be.Op != token.LOR {
+		return false
+	}
+	did, ok := be.X.(*ast.Ident)
+	ne, ok2 := be.Y.(*ast.BinaryExpr)
+	if !ok || !ok2 || ne.Op != token.NEQ || exprText(ne.Y) != "nil" {
+		return false
+	}
+	eid, ok := ne.X.(*ast.Ident)
+	if !ok {
+		return false
+	}
+	isRes := func(name, ty string) bool {
+		for _, r := range f.results {
+			if r.name == name && r.ty == ty && f.vars[name] == ty {
+				return true
+			}
+		}
+		return false
+	}
+	if !f.named || !isRes(did.Name, "Bool") || !isRes(eid.Name, "Err") {
+		return false
+	}
+	s0, ok0 := is.Body.List[0].(*ast.ExprStmt)
+	s1, ok1 := is.Body.List[1].(*ast.ExprStmt)
+	if !ok0 || !ok1 || exprText(s0.X) != f.ctx+".SetHeader(nil)" {
+		return false
+	}
+	ce, ok := s1.X.(*ast.CallExpr)
+	if !ok || len(ce.Args) != 1 || exprText(ce.Args[0]) != f.parked {
+		return false
+	}
+	se, ok := ce.Fun.(*ast.SelectorExpr)
+	if !ok || se.Sel.Name != "Put" {
+		return false
+	}
+	pid, ok := se.X.(*ast.Ident)
+	if !ok || !f.isHeaderPool(pid.Name) {
+		return false
+	}
+	f.relD, f.relE = did.Name, eid.Name
+	return true
+}
+
+// ifInitErrVal: `if …, err = CALL; err != nil { return }` in a function whose error is a tuple component (err the named error result,
+// a bare return): `_, err = RING.Read(b)` and `x, _, err = gzip.Decompress(b)`
+func (f *ftr) ifInitErrVal(x *ast.IfStmt, as *ast.AssignStmt, ename string, rest []ast.Stmt, tail func() string) string {
+	rs := x.Body.List[0].(*ast.ReturnStmt)
+	isRes := false
+	for _, r := range f.results {
+		if r.name == ename && r.ty == "Err" {
+			isRes = true
+		}
+	}
+	if !f.named || !isRes || f.vars[ename] != "Err" || len(rs.Results) != 0 || f.joinDep > 0 {
+		return f.bad("if with init: not `…, err = call; err != nil { return }` with err the named error result")
+	}
+	ce, ok := as.Rhs[0].(*ast.CallExpr)
+	if !ok {
+		return f.bad("if with init: %s", exprText(as.Rhs[0]))
+	}
+	lhs := as.Lhs[:len(as.Lhs)-1]
+	head, okPat, okPre := "", "", ""
+	t := f.tmp()
+	if ring, m, args, isRing := f.ringCall(ce); isRing && m == "Read" && len(args) == 1 && len(lhs) == 1 && exprText(lhs[0]) == "_" {
+		// _, err = buf.Read(b): the model's Ring.read with n = len(b); the bytes read are copied to the front of b (what is left of b stays);
+		// ErrIsEmpty leaves ring and b as they were
+		bid, isId := args[0].(*ast.Ident)
+		if !isId || f.vars[bid.Name] != "Bytes" {
+			return f.bad("Read into %s", exprText(args[0]))
+		}
+		head = fmt.Sprintf("Ring.read %s %s.length", lname(ring), lname(bid.Name))
+		okPat = fmt.Sprintf("(%s, %s)", t, lname(ring))
+		okPre = fmt.Sprintf("Res.bind (Bytes.copyAt %s (0 : Nat) %s) fun %s =>\n", lname(bid.Name), t, lname(bid.Name))
+	} else if exprText(ce.Fun) == "gzip.Decompress" && len(ce.Args) == 1 && len(lhs) == 2 && exprText(lhs[1]) == "_" && f.importsRepoGzip() &&
+		findFunc(pkgs["gzip"], "", "Decompress") != nil {
+		if _, shadow := f.vars["gzip"]; shadow {
+			return f.bad("gzip is a variable here")
+		}
+		pre, arg := f.exprAs(ce.Args[0], "Bytes")
+		if pre != "" {
+			return f.bad("argument of gzip.Decompress")
+		}
+		f.dropHoisted()
+		f.needs["gz"] = true
+		head = "Gzip.decompress gz " + arg
+		okPat = t
+		switch l := lhs[0].(type) {
+		case *ast.SelectorExpr:
+			okPre = f.fieldWrite(l, func(ty string) (string, string) {
+				if ty != "Bytes" {
+					return "", f.bad("gzip.Decompress into %s", exprText(l))
+				}
+				return "", t
+			})
+		default:
+			return f.bad("gzip.Decompress into %s", exprText(lhs[0]))
+		}
+	} else if se, isSel := ce.Fun.(*ast.SelectorExpr); isSel && len(lhs) == 0 && len(ce.Args) == 1 && se.Sel.Name == "UnmarshalMetadata" {
+		// err = packet.UnmarshalMetadata(md): the model's Metadata.unmarshalValues (the loop stays hand-written), as in the one-shot decoder
+		id, isId := se.X.(*ast.Ident)
+		if !isId || f.vars[id.Name] != "GPacket" || !unmarshalMetadataIsForwarder() {
+			return f.bad("UnmarshalMetadata on %s", exprText(se.X))
+		}
+		pre, arg := f.exprAs(ce.Args[0], "Bytes")
+		if pre != "" {
+			return f.bad("argument of UnmarshalMetadata")
+		}
+		f.dropHoisted()
+		f.needs["lower"] = true
+		head = "Metadata.unmarshalValues lower " + arg
+		okPat = t
+		target := &ast.SelectorExpr{X: &ast.SelectorExpr{X: id, Sel: ast.NewIdent("Metadata")}, Sel: ast.NewIdent("Values")}
+		okPre = f.fieldWrite(target, func(ty string) (string, string) {
+			if ty != pairsTy {
+				return "", f.bad("Metadata.Values has type %s", ty)
+			}
+			return "", t
+		})
+	} else {
+		return f.bad("if with init: %s", exprText(ce.Fun))
+	}
+	e, w := f.tmp(), f.tmp()
+	sn := f.snap()
+	a := fmt.Sprintf("let %s : Option String := some %s\n", lname(ename), e) + f.block(append(append([]ast.Stmt{}, x.Body.List...), f.scopeMark()), tail)
+	f.restore(sn)
+	b := okPre + fmt.Sprintf("let %s : Option String := none\n", lname(ename)) + f.block(rest, tail)
+	return fmt.Sprintf("(match %s with\n| .panic %s => .panic %s\n| .err %s => (\n%s)\n| .ok %s => (\n%s))", head, w, w, e, a, okPat, b)
+}
+
 func (f *ftr) dropHoisted() {
 	for _, k := range f.hoisted {
 		delete(f.ren, k)
@@ -1471,6 +1734,15 @@ func (f *ftr) expr(e ast.Expr, want string) (string, string, string) {
 	case *ast.BinaryExpr:
 		// md.Type == protocol.RequestPacket: equality of two values of a generated enum (decidable equality of the inductive type)
 		if x.Op == token.EQL || x.Op == token.NEQ {
+			// e != nil / e == nil on a local error variable (functions whose error is a tuple component)
+			if id, isId := x.X.(*ast.Ident); isId && f.errVal && f.vars[id.Name] == "Err" && exprText(x.Y) == "nil" {
+				if _, shadow := f.vars["nil"]; !shadow {
+					if x.Op == token.NEQ {
+						return "", "(Option.isSome " + lname(id.Name) + ")", "Bool"
+					}
+					return "", "(Option.isNone " + lname(id.Name) + ")", "Bool"
+				}
+			}
 			_, _, lc := f.enumConst(x.X)
 			_, _, rc := f.enumConst(x.Y)
 			if lc || rc {
@@ -1702,6 +1974,27 @@ func (f *ftr) block(stmts []ast.Stmt, tail func() string) string {
 			b, ok2 := x.Lhs[1].(*ast.Ident)
 			// data, e := header.UnpackBytes(ctx, bs) + `if e != nil { err = e; return }`: the callee's error is propagated
 			if ce, isCall := x.Rhs[0].(*ast.CallExpr); isCall && ok1 && ok2 {
+				if tr, rv, found := f.lookupMethod(ce); found && tr.errVal {
+					// ok, e := header.Unpack(ctx, buf): a translated streaming decoder; it returns (receiver, ring, value, error) as a tuple
+					if !f.errVal || !tr.hasErr || len(tr.vals) != 1 || tr.rings != 1 || len(f.rings) != 1 || !(tr.recvPtr && tr.recvW) ||
+						tr.recvTy != f.vars[rv] || a.Name == "_" || b.Name == "_" || a.Name == b.Name {
+						return f.bad("two-value definition from %s", exprText(ce.Fun))
+					}
+					if _, dup := f.vars[a.Name]; dup {
+						return f.bad("two-value definition re-uses %s", a.Name)
+					}
+					if _, dup := f.vars[b.Name]; dup {
+						return f.bad("two-value definition re-uses %s", b.Name)
+					}
+					pre, app, ok := f.methodCall(ce)
+					if !ok {
+						return "sorryUntranslatable"
+					}
+					f.dropHoisted()
+					f.declare(a.Name, tr.vals[0])
+					f.declare(b.Name, "Err")
+					return pre + fmt.Sprintf("Res.bind (%s) fun (%s, %s, %s, %s) =>\n", app, lname(rv), lname(f.rings[0]), lname(a.Name), lname(b.Name)) + cont()
+				}
 				if tr, rv, found := f.lookupMethod(ce); found {
 					if !tr.hasErr || tr.errVal || len(tr.vals) != 1 || tr.rings != 0 || a.Name == "_" || b.Name == "_" || a.Name == b.Name {
 						return f.bad("two-value definition from %s", exprText(ce.Fun))
@@ -1815,6 +2108,9 @@ func (f *ftr) block(stmts []ast.Stmt, tail func() string) string {
 				if exprText(x.Rhs[0]) == "nil" {
 					return fmt.Sprintf("let %s : Option String := none\n", lname(l.Name)) + cont()
 				}
+				if rid, isId := x.Rhs[0].(*ast.Ident); isId && f.errVal && f.vars[rid.Name] == "Err" && x.Tok == token.ASSIGN {
+					return fmt.Sprintf("let %s : Option String := %s\n", lname(l.Name), lname(rid.Name)) + cont()
+				}
 				return f.bad("error value %s", exprText(x.Rhs[0]))
 			}
 			if x.Tok != token.ASSIGN {
@@ -1883,6 +2179,19 @@ func (f *ftr) block(stmts []ast.Stmt, tail func() string) string {
 			p2, src := f.exprAs(ce.Args[1], "Bytes")
 			d := lname(did.Name)
 			return p1 + p2 + fmt.Sprintf("Res.bind (Bytes.copyAt %s %s %s) fun %s =>\n", d, lo, src, d) + cont()
+		}
+		if ce, ok := x.X.(*ast.CallExpr); ok && f.ctx != "" && len(ce.Args) == 0 {
+			if _, shadow := f.vars[f.ctx]; !shadow && ctxHeaderSlot() {
+				switch exprText(ce.Fun) {
+				case f.ctx + ".BeginUnpack": // sets a flag that only InUnpack reads: not part of the state (trusted mapping)
+					return cont()
+				case f.ctx + ".EndUnpack": // clears the flag and the header slot
+					if f.pendTy == "" || f.joinDep > 0 {
+						return f.bad("EndUnpack before headerFromContext")
+					}
+					return fmt.Sprintf("let pend : Option %s := none\n", f.pendTy) + cont()
+				}
+			}
 		}
 		if ring, m, args, ok := f.ringCall(x.X); ok && m == "Retrieve" && len(args) == 1 {
 			pre, n := f.nat(args[0])
@@ -1956,6 +2265,10 @@ func (f *ftr) block(stmts []ast.Stmt, tail func() string) string {
 		return f.block(append([]ast.Stmt{chain}, rest...), tail)
 	case *ast.DeferStmt:
 		if f.isPoolPutDefer(x) { // the pooled header goes back when the function returns: no effect on the results (trusted mapping)
+			return cont()
+		}
+		if f.isReleaseDefer(x) {
+			f.release = true
 			return cont()
 		}
 		return f.bad("defer")
@@ -2033,6 +2346,7 @@ func indexOf(xs []string, x string) int {
 }
 
 func (f *ftr) ret(results []ast.Expr) string {
+	naked := len(results) == 0
 	if len(results) == 0 {
 		if !f.named && len(f.results) != 0 {
 			return f.bad("naked return without named results")
@@ -2047,6 +2361,18 @@ func (f *ftr) ret(results []ast.Expr) string {
 	pre, vals := "", []string{}
 	if f.recvPtr && f.recvW {
 		vals = append(vals, lname(f.recv))
+	}
+	if f.pendTy != "" {
+		// the parked pointer (if still parked) sees what was written through the local alias; then the deferred release runs on the
+		// final values of the named results
+		if !naked || f.joinDep > 0 {
+			return f.bad("return with values in a function with a parked header")
+		}
+		pre += fmt.Sprintf("let pend : Option %s := Option.map (fun _ => %s) pend\n", f.pendTy, lname(f.parked))
+		if f.release {
+			pre += fmt.Sprintf("let pend : Option %s := if (%s || Option.isSome %s) then none else pend\n", f.pendTy, lname(f.relD), lname(f.relE))
+		}
+		vals = append(vals, "pend")
 	}
 	for _, rg := range f.rings {
 		vals = append(vals, lname(rg))
@@ -2328,6 +2654,9 @@ func translateFunc(sp fspec) (string, string) {
 			}
 		}
 	}
+	if used["pend"] {
+		return "", "a Go identifier `pend` (reserved for the parked header)"
+	}
 	if len(f.ptrW) > 0 && (f.errVal || f.named) {
 		return "", "written pointer parameter in a function with named results or a ring"
 	}
@@ -2343,6 +2672,9 @@ func translateFunc(sp fspec) (string, string) {
 	tys, vals := []string{}, []string{}
 	if f.recvPtr && f.recvW {
 		tys = append(tys, f.vars[f.recv])
+	}
+	if f.pendTy != "" {
+		tys = append(tys, "(Option "+f.pendTy+")")
 	}
 	for range f.rings {
 		tys = append(tys, "Ring")
@@ -2392,6 +2724,9 @@ func translateFunc(sp fspec) (string, string) {
 			if f.needs["codec"] {
 				params += " (codec : UInt8)"
 			}
+			if f.pendTy != "" { // the header slot of the context
+				params += " (pend : Option " + f.pendTy + ")"
+			}
 			continue
 		}
 		params += sl.text
@@ -2437,8 +2772,9 @@ func funcSpecs() []fspec {
 		{"v1", "Header", "IsUnknownPacket"}, {"v1", "Header", "length"}, {"v1", "Header", "Pack"}, {"v1", "Header", "UnpackBytes"},
 		{"v2", "Header", "length"}, {"v2", "Header", "Pack"}, {"v2", "Header", "UnpackBytes"},
 		{"v1", "Header", "Unpack"}, {"v2", "Header", "Unpack"},
-		{"v1", "Header", "Metadata"}, {"v1", "protocolV1", "UnpackBytes"}, {"v2", "protocolV2", "UnpackBytes"},
+		{"v1", "Header", "Unpacked"}, {"v1", "Header", "Metadata"}, {"v1", "protocolV1", "UnpackBytes"}, {"v2", "protocolV2", "UnpackBytes"},
 		{"v1", "", "headerFromMetadata"}, {"v2", "", "headerFromMetadata"}, {"v1", "protocolV1", "Pack"}, {"v2", "protocolV2", "Pack"},
+		{"v1", "protocolV1", "Unpack"}, {"v2", "protocolV2", "Unpack"},
 	}
 }
 
